@@ -263,6 +263,53 @@ impl NetClient {
         }
     }
 
+    /// Writes without ever reading: as many of `bytes` as the kernel takes while the server runs in
+    /// between; returns how many were written once two rounds in a row made no progress (both
+    /// directions full: the server is blocked writing responses nobody reads).
+    pub fn send_never_reading(&mut self, w: &NetWorld, bytes: &[u8]) -> usize {
+        let mut off = 0;
+        let mut stuck = 0;
+        while off < bytes.len() && stuck < 2 {
+            let s = match self.s.as_mut() {
+                Some(s) => s,
+                None => break,
+            };
+            match s.write(&bytes[off..]) {
+                Ok(0) => break,
+                Ok(n) => {
+                    off += n;
+                    stuck = 0;
+                }
+                Err(e) if e.kind() == std::io::ErrorKind::WouldBlock => {
+                    stuck += 1;
+                    w.settle();
+                }
+                Err(_) => {
+                    self.reset = true;
+                    break;
+                }
+            }
+        }
+        w.settle();
+        off
+    }
+
+    /// Shrinks this client's receive buffer (a slow consumer): the server's responses then stay in
+    /// the server's send queue, unacknowledged, once a few kilobytes are waiting here.
+    pub fn set_rcvbuf(&self, bytes: i32) {
+        if let Some(s) = self.s.as_ref() {
+            unsafe {
+                libc::setsockopt(
+                    s.as_raw_fd(),
+                    libc::SOL_SOCKET,
+                    libc::SO_RCVBUF,
+                    &bytes as *const _ as *const libc::c_void,
+                    std::mem::size_of::<i32>() as libc::socklen_t,
+                );
+            }
+        }
+    }
+
     /// Reads whatever has arrived.
     pub fn pump(&mut self) {
         let s = match self.s.as_mut() {
